@@ -5,6 +5,7 @@ import (
 	"fmt"
 	"iter"
 	"math/rand/v2"
+	"reduction.dev/reduction/util/verifhook"
 )
 
 type ZipTree struct {
@@ -18,6 +19,7 @@ func New() *ZipTree {
 // Insert is the original zip tree insert algorithm from https://arxiv.org/pdf/1806.06726.
 func (t *ZipTree) insert(node *Node) error {
 	node.rank = rand.Uint32()
+	verifhook.Tune("ziptree.rank", &node.rank)
 	key := node.Key
 	var prev *Node
 	cur := t.root
